@@ -117,8 +117,8 @@ impl<'c, KD: Kind, const N: usize> MapEng<'c, KD, N> {
                 }
                 match &r {
                     Ok(Ret::Prev { kid: rk, vid: rv, val: rval }) => {
-                        cx.chk(owner, *rval == e.val && (!KD::TRACKED || *rv == e.vid), "return", || format!("returned previous value {rval} (#{rv}), model had {} (#{})", e.val, e.vid));
-                        if variant == OP_INSERT_KV && KD::TRACKED {
+                        cx.chk(owner, *rval == e.val && (!KD::IDENT || *rv == e.vid), "return", || format!("returned previous value {rval} (#{rv}), model had {} (#{})", e.val, e.vid));
+                        if variant == OP_INSERT_KV && KD::IDENT {
                             cx.chk(P12, *rk == e.kid, "returned-key-identity", || format!("insert_key_value handed back key object #{rk}, the stored one was #{}", e.kid));
                         }
                         let ne = if variant == OP_INSERT_KV { Ent { kid, vid, val: v } } else { Ent { kid: e.kid, vid, val: v } };
@@ -276,12 +276,12 @@ impl<'c, KD: Kind, const N: usize> MapEng<'c, KD, N> {
             match (&r, want) {
                 (Ok(Some(g)), Some(e)) => {
                     if opi != OP_CONTAINS {
-                        cx.chk(P01, g.0 == e.val && (!KD::TRACKED || g.1 == e.vid), "lookup", || format!("{}({k}) gave value {} (#{}) but the model has {} (#{})", OP_NAMES[opi], g.0, g.1, e.val, e.vid));
+                        cx.chk(P01, g.0 == e.val && (!KD::IDENT || g.1 == e.vid), "lookup", || format!("{}({k}) gave value {} (#{}) but the model has {} (#{})", OP_NAMES[opi], g.0, g.1, e.val, e.vid));
                         cx.bump(S::addr_checks);
                         cx.chk(P_ADDR, slot.c.contains(g.2, std::mem::size_of::<KD::V>()), "addr", || "returned value reference points outside the container".into());
                     }
                     if opi == OP_GET_KV {
-                        if KD::TRACKED {
+                        if KD::IDENT {
                             cx.chk(P12, g.3 == e.kid, "exposed-key-identity", || format!("get_key_value exposes key object #{}, stored is #{}", g.3, e.kid));
                         }
                         cx.chk(P_ADDR, slot.c.contains(g.4, std::mem::size_of::<KD::K>()), "addr", || "returned key reference points outside the container".into());
@@ -342,8 +342,8 @@ impl<'c, KD: Kind, const N: usize> MapEng<'c, KD, N> {
             cx.log(|| format!("{}[{w}]({k}) -> {:?}   (model {:?})", OP_NAMES[opi], r, want));
             match (&r, want) {
                 (Ok(Some(g)), Some(e)) => {
-                    cx.chk(P01, g.0 == e.val && (!KD::TRACKED || g.1 == e.vid), "return", || format!("{}({k}) returned value {} (#{}) but the model had {} (#{})", OP_NAMES[opi], g.0, g.1, e.val, e.vid));
-                    if opi == OP_REMOVE_ENTRY && KD::TRACKED {
+                    cx.chk(P01, g.0 == e.val && (!KD::IDENT || g.1 == e.vid), "return", || format!("{}({k}) returned value {} (#{}) but the model had {} (#{})", OP_NAMES[opi], g.0, g.1, e.val, e.vid));
+                    if opi == OP_REMOVE_ENTRY && KD::IDENT {
                         cx.chk(P12, g.2 == e.kid, "exposed-key-identity", || format!("remove_entry returned key object #{}, stored was #{}", g.2, e.kid));
                     }
                     cx.bump(S::removals);
